@@ -27,7 +27,8 @@ RULE = (
     "matching f2 (both published by a second connection, so they arrive as live pushes) | disconnect. ALL sequences up "
     "to depth 3 (quick) / 4 (thorough) are run on both backends, in two pacing modes (quiesce between commands / feed "
     "the next command as soon as the previous one completed) and with an immediate and a slow consumer; seeded random "
-    "sequences to depth 40 with subscription_limit in {1,2,3}, non-string ids and duplicates on top. Non-trivial = a "
+    "sequences to depth 40 with subscription_limit in {1,2,3}, non-string ids and duplicates on top; plus REQs whose stored-events "
+    "query fails while it runs (SQL: rows that cannot be decoded, connection pool exhausted; LMDB: damaged records). Non-trivial = a "
     "sequence with at least one REQ followed by CLOSE / replacement / disconnect or hitting the limit. Distinct = "
     "distinct (backend, pacing, consumer, symbol sequence)."
 )
@@ -37,7 +38,7 @@ ASSUMPTIONS = [
     "LMDB backend over /verif/shim; SQL = SQLite",
 ]
 MIN_NONTRIVIAL = {"quick": 800, "thorough": 8000}
-REQUIRED_COUNTERS = ["clause.eose", "clause.refused_notice", "clause.after_close", "clause.limit", "clause.after_exit"]
+REQUIRED_COUNTERS = ["clause.eose", "clause.refused_notice", "clause.after_close", "clause.limit", "clause.after_exit", "clause.answered_despite_fault"]
 SHARD_TIMEOUT = {"quick": 600, "thorough": 3200}
 
 F1 = {"kinds": [1]}
@@ -59,6 +60,7 @@ def plan(tier, seed):
                                    "case_seed": seed})
         for i in range(2 if tier == "quick" else 8):
             shards.append({"mode": "random", "backend": backend, "case_seed": seed * 7919 + i, "n": 40 if tier == "quick" else 200})
+        shards.append({"mode": "fault", "backend": backend, "case_seed": seed * 7919, "n": 2 if tier == "quick" else 10})
     return shards
 
 
@@ -309,6 +311,70 @@ async def run_sequences(backend, pacing, consumer, seqs, counters, limit=2, seed
     return viols, nontrivial, samples
 
 
+FAULTS_SQL = ["tags-not-json", "tags-not-a-list", "short-id", "pool-exhausted"]
+FAULTS_LMDB = ["record-garbage", "record-empty", "record-wrong-shape", "record-one-byte"]
+
+
+async def run_faulty_queries(backend, counters, seed):
+    """
+    The stored-events query FAILS while it runs (damaged row / record it cannot decode; no database
+    connection to be had): the REQ must still be answered - EOSE or NOTICE - never met with silence,
+    and the connection keeps working.
+    """
+    import sqlalchemy as sa
+
+    viols, nontrivial = [], []
+    clause = counters.setdefault("clause", {})
+    r = random.Random(seed)
+    for fault in (FAULTS_SQL if backend == "sql" else FAULTS_LMDB):
+        opts = {"sqlalchemy.pool_size": 2, "sqlalchemy.max_overflow": 0, "sqlalchemy.pool_timeout": 0.3} if fault == "pool-exhausted" else {}
+        rig = R.Rig(backend=backend, config={"analysis_delay": 0}, storage_options=opts)
+        await rig.start()
+        try:
+            conn = rig.connect("f")
+            key = ref.key_from_seed("c13-fault")
+            evs = [ref.make_event(key, kind=r.choice([1, 7]), created_at=gen.T0 + i, tags=[["t", "a"]], content="f%d %d" % (i, seed)) for i in range(6)]
+            await qcore.load_store(rig, conn, evs)
+            victim = evs[r.randrange(len(evs))]
+            held = []
+            if backend == "sql" and fault != "pool-exhausted":
+                row = {"i": bytes.fromhex(ref.compute_id(key.pk, 1, 9, [], "damaged %d" % seed)), "p": bytes.fromhex(key.pk), "s": bytes(64),
+                       "t": {"tags-not-json": "{not json", "tags-not-a-list": "5", "short-id": "[]"}[fault]}
+                if fault == "short-id":
+                    row["i"] = row["i"][:7]
+                async with rig.storage.db.begin() as c:
+                    await c.execute(sa.text("INSERT INTO events (id, created_at, kind, pubkey, tags, sig, content) VALUES (:i, %d, %d, :p, :t, :s, 'damaged')"
+                                            % (gen.T0 + 3, victim["kind"])), row)
+            elif backend == "lmdb":
+                garbage = {"record-garbage": b"\xc1garbage", "record-empty": b"", "record-wrong-shape": b"\x93\x01\x02\x03", "record-one-byte": b"\x00"}[fault]
+                with rig.storage.db.begin(write=True) as txn:
+                    txn.put(b"\x00" + bytes.fromhex(victim["id"]), garbage)
+            reqs = [[{"kinds": [victim["kind"]]}], [{"ids": [victim["id"]]}], [{"#t": ["a"]}, {"kinds": [victim["kind"]]}], [{"authors": [key.pk]}], [{"kinds": [40404]}]]
+            for filters in reqs:
+                if fault == "pool-exhausted":
+                    held = [await rig.storage.db.connect(), await rig.storage.db.connect()]
+                try:
+                    ans = await qcore.run_req(rig, conn, filters, timeout=8.0)
+                finally:
+                    for c in held:
+                        await c.close()
+                    held = []
+                clause["answered_despite_fault"] = clause.get("answered_despite_fault", 0) + 1
+                counters["sequences"] = counters.get("sequences", 0) + 1
+                nontrivial.append(h([backend, "fault", fault, filters and sorted(filters[0])]))
+                if not ans["eose"] and not ans["notices"]:
+                    viols.append({"key": "%s/silence-after-failed-query/%s" % (backend, fault),
+                                  "msg": "[%s] with %s the REQ %s got neither EOSE nor NOTICE within 8 s (%s)"
+                                         % (backend, fault, json.dumps(filters)[:120], "connection closed" if ans["exited"] else "connection open"),
+                                  "replay": {"backend": backend, "mode": "fault", "seed": seed}})
+                    break
+                if conn.exited:
+                    conn = rig.connect()
+        finally:
+            await rig.close()
+    return viols, nontrivial
+
+
 def random_seq(r, n):
     ids = ["a", "b", "c", 5, None, "a\"b", ""]
     out = []
@@ -328,7 +394,13 @@ def random_seq(r, n):
 
 def run_shard(spec):
     counters = {}
-    if spec["mode"] == "enum":
+    if spec["mode"] == "fault":
+        viols, nontrivial, samples = [], [], []
+        for j in range(spec["n"]):
+            v, nt = R.run(run_faulty_queries, spec["backend"], counters, spec["case_seed"] + j)
+            viols.extend(v)
+            nontrivial.extend(nt)
+    elif spec["mode"] == "enum":
         seqs = [s for i, s in enumerate(itertools.product(SYMS, repeat=spec["depth"])) if i % spec["parts"] == spec["part"]]
         seqs = seqs[:: spec["stride"]]
         viols, nontrivial, samples = R.run(run_sequences, spec["backend"], spec["pacing"], spec["consumer"], seqs, counters, 2, spec["case_seed"])
@@ -354,5 +426,8 @@ def run_shard(spec):
 
 def replay(rp, spec):
     counters = {}
+    if rp.get("mode") == "fault":
+        v, nt = R.run(run_faulty_queries, rp["backend"], counters, rp["seed"])
+        return {"evaluations": 1, "nontrivial": nt, "counters": counters, "violations": v, "samples": [], "inconclusive": []}
     v, nt, sm = R.run(run_sequences, rp["backend"], rp["pacing"], rp["consumer"], [rp["seq"]], counters, rp.get("limit", 2), 0)
     return {"evaluations": 1, "nontrivial": nt, "counters": counters, "violations": v, "samples": [], "inconclusive": []}
